@@ -56,7 +56,7 @@ use crate::consensus::block_producer::BlockProducer;
 use crate::crypto::{aggsig, signature};
 use crate::network::{RepairRequesterNetwork, RepairResponderNetwork, TransactionNetwork};
 use crate::repair::{Repair, RepairRequestHandler};
-use crate::shredder::{Shred, ValidatedShred};
+use crate::shredder::{Shred, ShredValidationError, ValidatedShred};
 use crate::types::Fraction;
 use crate::{All2All, Disseminator, Slot, ValidatorInfo};
 
@@ -386,6 +386,16 @@ where
             .cached_commitment(slot, slice_index);
         let validated = match ValidatedShred::try_new(shred, cached.as_ref(), &leader_pk) {
             Ok(v) => v,
+            // the leader validly signed a second, different commitment for this slice:
+            // report it, otherwise equivocation within a slice goes unnoticed on this path
+            Err(ShredValidationError::Equivocation) => {
+                self.blockstore
+                    .write()
+                    .await
+                    .flag_leader_misbehavior(slot)
+                    .await;
+                return Ok(());
+            }
             Err(_) => return Ok(()),
         };
 
